@@ -27,7 +27,7 @@ ASSUMPTIONS = ['the documentation tables of the tree under test are the specific
                'propagate_fft refusing tilt-carrying wavefronts (NotImplementedError) is C09\'s rule, not a table entry']
 EXHAUSTIVE = True
 PLAN = {'quick': {'gen': 8}, 'thorough': {'gen': 16, 'tests': 1}}
-REQUIRED_BUCKETS = ['form:scalar+sampling', 'form:other-focal', 'form:no-focal', 'form:reassigned', 'typed-tilt-class', 'start:none+focal', 'form:mismatch', 'copy-step', 'form:scalar', 'form:disjoint', 'start:none', 'start:pupil', 'start:image', 'len:1', 'len:2', 'len:3', 'random-long',
+REQUIRED_BUCKETS = ['other-process', 'form:shared-plane-object', 'form:scalar+sampling', 'form:other-focal', 'form:no-focal', 'form:reassigned', 'typed-tilt-class', 'start:none+focal', 'form:mismatch', 'copy-step', 'form:scalar', 'form:disjoint', 'start:none', 'start:pupil', 'start:image', 'len:1', 'len:2', 'len:3', 'random-long',
                     'cell:allowed', 'cell:refused', 'propagate:allowed', 'propagate:refused']
 REQUIRED_ANCHORS = ['anchor:_can_mul_ptype', 'anchor:_mul_result_ptype', 'anchor:_propagate_ptype', 'anchor:Image.multiply',
                     'anchor:PType.__eq__']
@@ -112,6 +112,17 @@ def make_plane(lentil, name, w, form='array'):
         if name not in _SHARED:
             _SHARED[name] = make_plane(lentil, name, w, 'fresh')
         return _SHARED[name]
+    if form == 'shared':
+        # one plane object without a pixel scale of its own ("sampling is automatically selected"), used by every program of the
+        # shard with wavefronts of whatever sampling: a plane does not remember the wavefronts it was applied to
+        if name in ('Plane', 'Pupil', 'Image'):
+            key = name + ':shared'
+            if key not in _SHARED:
+                _SHARED[key] = {'Plane': lambda: lentil.Plane(amplitude=np.ones((4, 4))),
+                                'Pupil': lambda: lentil.Pupil(amplitude=np.ones((4, 4)), focal_length=Z),
+                                'Image': lambda: lentil.Image(amplitude=np.ones((4, 4)))}[name]()
+            return _SHARED[key]
+        return make_plane(lentil, name, w, 'array')
     if form == 'scalar':
         a, ps = 1, None
     elif form == 'scalar+sampling':
@@ -234,6 +245,84 @@ def run_program(ctx, lentil, start, prog, traces, forms=None):
     traces.append((start, tuple(prog), trace))
 
 
+_CHILD = r'''
+import pickle, sys, warnings
+sys.path[:0] = [%(repo)r, %(verif)r]
+warnings.simplefilter('ignore')
+import lentil
+from vp import probe
+from vp.monitors import C08
+blob = pickle.load(open(%(path)r, 'rb'))
+out = []
+for start, w_l in blob['w'].items():
+    for name, p_l in blob['p'][start].items():
+        for crossed in ('both', 'plane', 'wavefront'):
+            try:
+                w = w_l if crossed != 'plane' else C08.start_wavefront(lentil, start)
+                p = p_l if crossed != 'wavefront' else C08.make_plane(lentil, name, w, 'fresh')
+                before = str(w.ptype)
+                fw, fp = probe.fingerprint(w), probe.fingerprint(p)
+            except Exception as e:
+                out.append((start, (name,), [('?', name, 'construct-raise:' + type(e).__name__, {'msg': str(e)[:120], 'crossed': crossed})]))
+                continue
+            for how in ('w*p', 'p.multiply(w)'):
+                try:
+                    o = w * p if how == 'w*p' else p.multiply(w)
+                    out.append((start, (name,), [(before, name, str(o.ptype), {'plane_ptype': str(p.ptype), 'form': 'other-process', 'crossed': crossed, 'how': how})]))
+                except Exception as e:
+                    unchanged = probe.fingerprint(w) == fw and probe.fingerprint(p) == fp
+                    out.append((start, (name,), [(before, name, 'raise:' + type(e).__name__,
+                                                  {'unchanged': unchanged, 'form': 'other-process', 'plane_ptype': str(p.ptype), 'crossed': crossed, 'how': how,
+                                                   'msg': str(e)[:120]})]))
+pickle.dump(out, open(%(path)r + '.out', 'wb'))
+'''
+
+
+def other_process(ctx, lentil, traces):
+    """Planes and wavefronts that crossed a process boundary by pickle (a saved model, spawn / forkserver workers) into an interpreter
+    with another string-hash seed behave as the table says: loaded x loaded, loaded plane x fresh wavefront, fresh plane x loaded
+    wavefront, both call forms.  The child's observations are replayed through the automaton like every other trace."""
+    import os
+    import subprocess
+    import sys
+    import tempfile
+    from vp import core
+    names = ['Plane', 'Pupil', 'Image', 'Tilt', 'DispersiveTilt', 'Grism'] + GENERIC
+    blob = {'w': {}, 'p': {}}
+    with warnings.catch_warnings():
+        warnings.simplefilter('ignore')
+        for start in ('none', 'pupil', 'image'):
+            w = start_wavefront(lentil, start)
+            blob['w'][start] = w
+            blob['p'][start] = {n: make_plane(lentil, n, w, 'fresh') for n in names}
+    tmp = tempfile.mkdtemp(prefix='vpc08-')
+    try:
+        path = os.path.join(tmp, 'objects.pkl')
+        with open(path, 'wb') as f:
+            pickle.dump(blob, f)
+        for hs in (4242, 977):
+            env = dict(os.environ, PYTHONHASHSEED=str(hs + ctx.seed))
+            code = _CHILD % {'repo': core.repo_dir(), 'verif': core.VERIF_DIR, 'path': path}
+            try:
+                p = subprocess.run([sys.executable, '-c', code], timeout=300, stdout=subprocess.PIPE, stderr=subprocess.STDOUT, env=env)
+            except subprocess.TimeoutExpired:
+                ctx.skip('other-process child timed out')
+                continue
+            if p.returncode != 0 or not os.path.exists(path + '.out'):
+                ctx.skip('other-process child failed: ' + p.stdout.decode(errors='replace')[-300:])
+                continue
+            with open(path + '.out', 'rb') as f:
+                got = pickle.load(f)
+            os.remove(path + '.out')
+            for t in got:
+                ctx.case({'other-process': hs, 'start': t[0], 'plane': t[1][0], 'crossed': t[2][0][3].get('crossed'), 'how': t[2][0][3].get('how')},
+                         ['other-process'])
+            traces.extend(got)
+    finally:
+        import shutil
+        shutil.rmtree(tmp, ignore_errors=True)
+
+
 def workload(ctx, lentil):
     rng = ctx.rng
     maxlen = 3 if ctx.tier == 'quick' else 4
@@ -306,6 +395,19 @@ def workload(ctx, lentil):
                     continue
                 ctx.case({'start': start, 'prog': list(prog), 'form': 'reassigned'}, ['form:reassigned'])
                 run_program(ctx, lentil, start, prog, traces, forms=['reassigned'] * L)
+    # plane objects without their own sampling shared by all programs (wavefronts sampled at DX and at DU meet the same object)
+    k = 0
+    for rep in range(2):
+        for start in ('image', 'pupil', 'none'):
+            for L in range(1, 4):
+                for prog in itertools.product(['Plane', 'Pupil', 'Image', 'propagate_dft'], repeat=L):
+                    k += 1
+                    if k % ctx.nshards != ctx.shard:
+                        continue
+                    ctx.case({'start': start, 'prog': list(prog), 'form': 'shared', 'rep': rep}, ['form:shared-plane-object'])
+                    run_program(ctx, lentil, start, prog, traces, forms=['shared'] * L)
+    if ctx.shard == 0:
+        other_process(ctx, lentil, traces)
     # copies of the wavefront (deepcopy / pickle round trip) anywhere in a program
     k = 0
     for start in ('none', 'pupil', 'image'):
